@@ -129,6 +129,12 @@ inductive IStmt
   | ifLockedRelease                    -- `if self._cache_lock.locked(): self._cache_lock.release()`
   | bumpGeneration                     -- `self._generation += 1`
   | lenNone                            -- `self._len = None`
+  -- `rrulebase.__init__(self, cache=False)`
+  | generationZero                     -- `self._generation = 0`
+  | ifCacheArg (thn els : List IStmt)  -- `if cache:` … `else:` …
+  | allocLock                          -- `self._cache_lock = _thread.allocate_lock()`
+  | callInvalidate                     -- `self._invalidate_cache()`
+  | cacheNone                          -- `self._cache = None`
   deriving Repr, Inhabited
 
 /-- the object's caching attributes and its generation counter; `src`/`endErr` of the NEW generator are parameters -/
@@ -140,6 +146,11 @@ structure Obj where
 
 mutual
 def runI (src : List Int) (e : Option PyErr) : IStmt → Obj → Option Obj
+  | .generationZero, o => some { o with generation := 0 }
+  | .ifCacheArg _ _, _ => none         -- only in `__init__`: `runInitObj`
+  | .allocLock, o => some { o with sh := { o.sh with lock := none } }
+  | .callInvalidate, _ => none         -- only in `__init__`: `runInitObj`
+  | .cacheNone, o => some { o with cached := false }
   | .ifCached body, o => if o.cached then runIL src e body o else some o
   | .newCache, o => some { o with sh := { o.sh with cache := [] } }
   | .completeFalse, o => some { o with sh := { o.sh with complete := false } }
@@ -153,5 +164,26 @@ def runIL (src : List Int) (e : Option PyErr) : List IStmt → Obj → Option Ob
     | some o' => runIL src e rest o'
     | none => none
 end
+
+/-- the branch of `if cache:` that runs (one level: `__init__` has no deeper nesting) -/
+def chooseBranch (cacheArg : Bool) (l : List IStmt) : List IStmt :=
+  l.flatMap (fun st => match st with | .ifCacheArg thn els => if cacheArg then thn else els | st => [st])
+
+/-- straight-line statements of `__init__`, `_invalidate_cache` = `inv`; `self._cache = []` is what makes the object a cached one -/
+def runFlat (src : List Int) (e : Option PyErr) (inv : List IStmt) : List IStmt → Obj → Option Obj
+  | [], o => some o
+  | .callInvalidate :: rest, o =>
+    match runIL src e inv o with
+    | some o' => runFlat src e inv rest o'
+    | none => none
+  | .newCache :: rest, o => runFlat src e inv rest { o with cached := true, sh := { o.sh with cache := [] } }
+  | st :: rest, o =>
+    match runI src e st o with
+    | some o' => runFlat src e inv rest o'
+    | none => none
+
+/-- `rrulebase.__init__(cache)` -/
+def runInitObj (src : List Int) (e : Option PyErr) (inv : List IStmt) (cacheArg : Bool) (p : List IStmt) (o : Obj) : Option Obj :=
+  runFlat src e inv (chooseBranch cacheArg p) o
 
 end CachePy
